@@ -11,6 +11,8 @@ import (
 
 	"verif/checks"
 	_ "verif/gen/n0/server"
+	_ "verif/gen/n1/server"
+	_ "verif/gen/n2/server"
 )
 
 func main() {
